@@ -210,14 +210,20 @@ func blockedStatus() map[int64]string {
 		}
 		id, _ := strconv.ParseInt(string(m[1]), 10, 64)
 		st := string(m[2])
-		switch {
-		case st == "running" || st == "runnable" || st == "syscall" || bytes.HasPrefix(m[2], []byte("GC")):
-		case bytes.Contains(g, []byte("verifharness/sched.(*Sched)")):
-			// inside the scheduler (its mutex, or the resume channel of a yield): not a runtime block of f1 code
-		case st == "semacquire" && !bytes.Contains(g, []byte("\nsync.(*")):
-			// a runtime-internal semaphore (allocation during the stop-the-world of this very dump, GC assist): transient
+		switch st {
+		case "chan receive", "chan send", "select", "select (no cases)", "sync.Mutex.Lock", "sync.RWMutex.Lock",
+			"sync.RWMutex.RLock", "sync.Cond.Wait", "sync.WaitGroup.Wait", "sleep", "IO wait", "semacquire":
+			// a real wait - unless it is a wait inside the scheduler itself (its mutex / the resume channel
+			// of a yield), or a runtime-internal semaphore (allocation during the stop-the-world of this dump)
+			if bytes.Contains(g, []byte("verifharness/sched.(*Sched)")) {
+				continue
+			}
+			if st == "semacquire" && !bytes.Contains(g, []byte("\nsync.(*")) {
+				continue
+			}
+			out[id] = st + "\n" + string(g)
 		default:
-			out[id] = st + "\n" + string(g) // semacquire, sync.Mutex.Lock, sync.RWMutex.RLock, chan receive, select, sync.Cond.Wait, sleep, ...
+			// running, runnable, syscall, preempted, copystack, GC ...: not blocked
 		}
 	}
 	return out
@@ -229,6 +235,7 @@ func blockedStatus() map[int64]string {
 func (s *Sched) Quiesce() error {
 	deadline := time.Now().Add(s.Timeout)
 	spins := 0
+	confirmations := 0
 	for {
 		s.mu.Lock()
 		nRunning, nCheck := 0, 0
@@ -274,8 +281,14 @@ func (s *Sched) Quiesce() error {
 		}
 		s.mu.Unlock()
 		if stable {
-			return nil
+			confirmations++
+			if confirmations >= 2 {
+				return nil
+			}
+			time.Sleep(30 * time.Microsecond)
+			continue
 		}
+		confirmations = 0
 		if time.Now().After(deadline) {
 			return fmt.Errorf("sched: goroutines still running after %s: %v", s.Timeout, s.describe())
 		}
